@@ -273,6 +273,18 @@ class Harness(cm.BaseB):
                     V.append(("C15/misfit-accepted", f"{RA}x{CA} into {RB}x{CB} at {anchor} was accepted"))
                     continue
                 n_ok += 1
+                if RA * CA > 1:
+                    # results belong to the caller: a second call must not rewrite what the first one returned
+                    try:
+                        g0 = ids(RA, CA)
+                        first = sh.shift(np.array(g0))
+                        keep = np.array(first).copy()
+                        sh.shift(np.array(g0)[::-1, ::-1].copy())
+                        sh.unshift(np.array(keep)[::-1, ::-1].copy())
+                        if not np.array_equal(np.asarray(first), keep):
+                            V.append(("C15/shift-offset", f"{RA}x{CA}->{RB}x{CB}@{anchor}: the array returned by shift() changed when shift() was called again"))
+                    except Exception as e:
+                        V.append(("C15/raised", f"{RA}x{CA}->{RB}x{CB}@{anchor}: {type(e).__name__}: {e}"))
                 ins = inputs(RA, CA, "quick") if RA * CA <= 24 else [("full2d", ids(RA, CA)), ("row0", ids(RA, CA)[0]), ("scalar", "A01")]
                 for lab, val in ins:
                     src = flat(val)
